@@ -108,6 +108,64 @@ func H05_scan() {
 	e.s.Fini()
 }
 
+// H05_expire: a lone ESC is decoded only when the escape timer expires.  If the event
+// queue is full at that moment (any fill level up to full is explored) the ESC is held
+// back like any other input - never dropped - and later input stays behind it.
+func H05_expire() {
+	e := h01New("xterm-256color", 3, 1, false)
+	for e.s.HasPendingEvent() {
+		e.s.PollEvent()
+	}
+	m := 1 + vsymChoice("keys", 3)
+	pre := []int{0, 10 - m, 9 - m}[vsymChoice("prefill", 3)] // queue full / one short of full once the keys are in
+	h05Fill(e, pre)
+	chunk := make([]byte, 0, m+1)
+	for i := 0; i < m; i++ {
+		chunk = append(chunk, byte('a'+i))
+	}
+	chunk = append(chunk, 0x1b)
+	e.tty.inCh <- chunk
+	vsymRunBlocked()
+	vsymAssert(len(e.t.eventQ) == pre+m, "the keys before the ESC are queued, the ESC waits for the escape timer")
+	// the escape timeout passes (the deadline is moved into the past; the timer fires)
+	e.t.Lock()
+	e.t.keyexpire = time.Time{}
+	e.t.Unlock()
+	vsymFireTimers()
+	vsymRunBlocked()
+	e.tty.inCh <- []byte{'z'}
+	vsymRunBlocked()
+	total := pre + m + 2
+	for i := 0; i < total; i++ {
+		if !e.s.HasPendingEvent() {
+			vsymRunBlocked()
+		}
+		vsymAssert(e.s.HasPendingEvent(), "input held back by a full queue is delivered once the application polls (nothing is dropped)")
+		if !e.s.HasPendingEvent() {
+			break
+		}
+		ev := e.s.PollEvent()
+		vsymRunBlocked()
+		switch {
+		case i < pre:
+			p, ok := ev.(*h05Ev)
+			vsymAssert(ok && p.id == 1000+i, "earlier posted events keep their place")
+		case i < pre+m:
+			k, ok := ev.(*EventKey)
+			vsymAssert(ok && k.Key() == KeyRune && k.Rune() == rune('a'+i-pre), "key events arrive exactly once and in input order")
+		case i == pre+m:
+			k, ok := ev.(*EventKey)
+			vsymAssert(ok && k.Key() == KeyEsc, "the lone ESC decoded at the escape timeout is delivered in its place, not dropped")
+		default:
+			k, ok := ev.(*EventKey)
+			vsymAssert(ok && k.Key() == KeyRune && k.Rune() == 'z', "input typed after the ESC arrives after it")
+		}
+	}
+	vsymRunBlocked()
+	vsymAssert(!e.s.HasPendingEvent(), "no event is delivered twice")
+	e.s.Fini()
+}
+
 // H05_chan: ChannelEvents forwards in order and closes its channel on quit and on Fini.
 func H05_chan() {
 	e := h01New("xterm-256color", 3, 1, false)
